@@ -538,6 +538,11 @@ impl<'a> G<'a> {
         self.marker += 1;
         let sid = self.marker;
         let m = format!("K{}L{}", self.knot, sid);
+        if indent == 0 && self.rng.chance(1, 5) {
+            // a labelled gather reached by falling through: what follows lives in a container that is
+            // both named and part of its parent's content
+            self.line(0, &format!("- (xg{sid})"));
+        }
         match self.rng.below(8) {
             0 => {
                 if let Some((c, _)) = self.ext_call(false, sid) {
@@ -887,7 +892,10 @@ pub fn render(rng: &mut Rng, cfg: &GenCfg) -> String {
                 .enumerate()
                 .map(|(k, it)| {
                     let on = g.rng.chance(1, 3);
-                    let val = if ties {
+                    let val = if ties && it.ends_with("dup") {
+                        // the same name with the same value in several lists: a tie no item key can break
+                        " = 2".to_string()
+                    } else if ties {
                         if g.rng.chance(1, 4) { format!(" = {}", 1 + k / 2) } else { String::new() }
                     } else if k == 0 {
                         format!(" = {}", i * 10 + 1)
@@ -967,6 +975,21 @@ pub fn render(rng: &mut Rng, cfg: &GenCfg) -> String {
         let n = 1 + g.rng.below(2);
         for _ in 0..n {
             g.text_line(0);
+        }
+    }
+    {
+        // lists that share the item `dup` (list_ties mode): a value holding both, drawn from at random,
+        // the draw stored and asked for its origin
+        let p = g.cfg.prefix.clone();
+        let shared: Vec<String> = g.lists.iter().filter(|l| l.1.iter().any(|it| it.ends_with("dup"))).map(|l| l.0.clone()).collect();
+        if g.cfg.list_ties && g.cfg.random && shared.len() >= 2 {
+            let v = format!("{p}lv0");
+            g.knot = 98;
+            let m = g.m();
+            g.line(0, &format!("~ {v} = LIST_ALL({}) + LIST_ALL({})", shared[0], shared[1]));
+            g.line(0, &format!("{m} tie all={{{v}}} draw={{LIST_RANDOM({v})}}"));
+            g.line(0, &format!("~ {v} = LIST_RANDOM({v})"));
+            g.line(0, &format!("{m} tie kept={{{v}}} of={{LIST_ALL({v})}} inv={{LIST_INVERT({v})}}"));
         }
     }
     g.line(0, &format!("-> {}", knot_names[0]));
